@@ -531,6 +531,8 @@ fn splice(printed: &str, d: &Directive, nloops: usize, nrets: usize) -> Result<S
             s = s.replacen(&from_mut, &format!("let mut {name}: {ty} = "), 1);
         } else if s.contains(&from) {
             s = s.replacen(&from, &format!("let {name}: {ty} = "), 1);
+        } else if s.contains(&format!("let mut {name}: ")) || s.contains(&format!("let {name}: ")) {
+            // the source itself declares the binding's type: nothing to add
         } else if loops_gone && name.starts_with("__") {
             // the normaliser temporary belonged to a loop that no longer exists
         } else {
